@@ -61,6 +61,7 @@ from .._common import (
     decompress as _decompress_with_encoding,
 )
 from .._unauthorized import AuthUnavailableError, classify_auth_failure
+from ._responses import _read_request_body
 
 _logger = logging.getLogger("vgi_rpc.http")
 
@@ -117,7 +118,7 @@ class _MaxRequestBytesMiddleware:
         if cl is not None and cl > self._max_bytes:
             self._raise_too_large(cl)
         if cl is None:
-            body = req.bounded_stream.read(self._max_bytes + 1)
+            body = _read_request_body(req, self._max_bytes + 1)
             if len(body) > self._max_bytes:
                 self._raise_too_large(len(body))
             req.context.capped_request_body = body
@@ -537,7 +538,7 @@ class _CompressionMiddleware:
         try:
             compressed = getattr(req.context, "capped_request_body", None)
             if compressed is None:
-                compressed = req.bounded_stream.read()
+                compressed = _read_request_body(req)
             decompressed = _decompress_with_encoding(req_enc, compressed, max_output_size=self._max_decompressed_bytes)
             # pa.BufferReader rather than BytesIO: Arrow reads through this
             # from C++, and a BytesIO makes it cross back into Python for
